@@ -144,8 +144,9 @@ pub fn parse_shape(shape: &str) -> Vec<LineT> {
         };
         let f: Vec<&str> = rest.split(':').collect();
         let kind = f[0].chars().next().unwrap();
-        let dom = dom_override.unwrap_or(match kind {
-            'O' => Dom::EnergySigned,
+        let dom = dom_override.unwrap_or(match (kind, crate::common::dom_override()) {
+            ('O', _) => Dom::EnergySigned,
+            (_, Some((lo, hi))) => Dom::EnergyR(lo, hi),
             _ => Dom::Energy,
         });
         v.push(LineT {
@@ -165,6 +166,8 @@ thread_local! {
     /// (`win`, `zero`) of the unit being run: steps `t >= win` carry fixed constants instead of symbolic inputs
     /// (long series with a symbolic window); the inputs named in `zero` are the constant +0.0
     static SERIES: std::cell::RefCell<(usize, Vec<String>)> = std::cell::RefCell::new((usize::MAX, vec![]));
+    /// `dom=<lo>:<hi>` of the unit being run: energy values are +0 or in [lo, hi] instead of [0.01, 1e6]
+    static DOM: std::cell::RefCell<Option<(f32, f32)>> = std::cell::RefCell::new(None);
 }
 
 /// Read the unit parameters `win=<k>` and `zero=<name>,<name>..` (see `line_value`).
@@ -172,6 +175,13 @@ pub fn configure(u: &Unit) {
     let win = u.get("win").parse::<usize>().unwrap_or(usize::MAX);
     let zero: Vec<String> = u.get("zero").split(',').filter(|s| !s.is_empty()).map(|s| s.to_string()).collect();
     SERIES.with(|s| *s.borrow_mut() = (win, zero));
+    let dom = u.get("dom").split_once(':').and_then(|(a, b)| Some((a.parse::<f32>().ok()?, b.parse::<f32>().ok()?)));
+    DOM.with(|d| *d.borrow_mut() = dom);
+}
+
+/// the unit's `dom=` override, if any
+pub fn dom_override() -> Option<(f32, f32)> {
+    DOM.with(|d| *d.borrow())
 }
 
 /// Constant carried by line `stem` at a step outside the symbolic window: a fixed table indexed by a hash of the
